@@ -781,6 +781,7 @@ type scenStats struct {
 	Violating     int64   `json:"violating_transitions"`
 	Wall          float64 `json:"wall_s"`
 	FrontierEmpty bool    `json:"frontier_exhausted_within_bound"`
+	SeedViolated  bool    `json:"seed_prefix_already_violates"`
 }
 
 var violCount sync.Map // key → *int64
@@ -803,6 +804,9 @@ func bfs(sc *scenario) scenStats {
 		st.Transitions++
 		if out.viol != "" {
 			reportViolation(sc, out)
+			st.Violating++
+			st.SeedViolated = true
+			st.Wall = time.Since(t0).Seconds()
 			return st
 		}
 		root = &node{hist: append(append([]cmd{}, root.hist...), c), ok: append(append([]bool{}, root.ok...), out.ok), m: out.m}
